@@ -100,8 +100,9 @@ def race_reports(ctx, tag):
                 frames = re.findall(r"^  (\S.*)\n\s+(\S+?):(\d+)", m.group(1), re.M)
                 top = None
                 for fun, path, line in frames:
-                    if "/go-" in path or "/go/src/" in path or path.startswith("/usr/lib/go"):
-                        continue   # runtime / standard library frame: the caller is the one that matters
+                    if "/go-" in path or "/go/src/" in path or path.startswith("/usr/lib/go") or "vfAlloc" in fun:
+                        continue   # runtime / standard library frame (or the harness's poisoning allocator standing in
+                                   # for utxo.Memory_Free): the caller is the one that matters
                     top = (fun.split("(")[0] if not fun.startswith("github.com") else re.sub(r"\(\)$", "", fun), path)
                     break
                 tops.append(top)
@@ -220,8 +221,8 @@ def record(ctx, binp, tag, o, traces, ops, seed, env=None):
     return tr, summ, [j for j in js if "kind" in j]
 
 
-def stress(ctx, binp, tag, seed, rounds, env=None, compress=False):
-    return child(ctx, binp, "stress", tag, ["-seed", str(seed), "-rounds", str(rounds)] + (["-compress"] if compress else []), env)
+def stress(ctx, binp, tag, seed, rounds, env=None, compress=False, alloc="goheap"):
+    return child(ctx, binp, "stress", tag, ["-seed", str(seed), "-rounds", str(rounds), "-alloc", alloc] + (["-compress"] if compress else []), env)
 
 
 def child(ctx, binp, cmd, tag, args, env=None):
@@ -399,30 +400,25 @@ def run(ctx):
             k = max(5, ntr // 3) if race else ntr
             fut = ex.submit(record, ctx, binr if race else binp, tag + ("r" if race else ""), o, k, 9, ctx.seed * 31 + len(tag) + (7 if race else 0), env)
             recjobs.append((tag, o, thr, race, k, fut))
-    # stress chain: GOMAXPROCS x race
+    # stress chain: GOMAXPROCS x race x record format x allocator of the UTXO records
+    #   goheap = the library default; memory = lib/others/memory as the client installs it; poison = freed records
+    #   are overwritten with 0xEE and recycled late (any use of a freed record changes the outcome)
     procs = (1, 4, 16) if quick else (1, 2, 4, 16)
     stjobs = []
-    for gmp in procs:
-        for race in (False, True):
-            if race and quick and gmp != 16:
-                continue
-            tag = "s%d%s" % (gmp, "r" if race else "")
-            env = {"GOMAXPROCS": str(gmp)}
-            if race:
-                env.update(race_env(ctx, tag))
-            rounds = (2 if race else 4) if quick else (10 if race else 30)
-            stjobs.append((gmp, race, tag, ex.submit(stress, ctx, binr if race else binp, tag, ctx.seed + gmp, rounds, env)))
-    # the same chain with compressed UTXO records (SerializeC's shared scratch buffers behind comp_pool_mutex)
-    for gmp in ((4, 16) if quick else (1, 2, 4, 16)):
-        for race in (False, True):
-            if race and quick and gmp != 16:
-                continue
-            tag = "sc%d%s" % (gmp, "r" if race else "")
-            env = {"GOMAXPROCS": str(gmp)}
-            if race:
-                env.update(race_env(ctx, tag))
-            rounds = (2 if race else 4) if quick else (10 if race else 30)
-            stjobs.append((gmp, race, tag, ex.submit(stress, ctx, binr if race else binp, tag, ctx.seed + gmp, rounds, env, True)))
+    if quick:
+        plan = [(1, False, False, "goheap"), (4, False, False, "poison"), (16, False, False, "memory"), (16, True, False, "poison"),
+                (4, False, True, "memory"), (16, False, True, "poison"), (16, True, True, "goheap")]
+    else:
+        plan = [(g, False, False, a) for g in procs for a in ("goheap", "poison")] + [(4, False, False, "memory"), (16, False, False, "memory")] + \
+               [(g, True, False, "poison") for g in procs] + [(g, False, True, "poison") for g in procs] + [(16, False, True, "goheap"), (4, False, True, "memory")] + \
+               [(g, True, True, "goheap") for g in (1, 16)]
+    for gmp, race, comp, alloc in plan:
+        tag = "s%s%d%s%s" % ("c" if comp else "", gmp, "r" if race else "", alloc[0])
+        env = {"GOMAXPROCS": str(gmp)}
+        if race:
+            env.update(race_env(ctx, tag))
+        rounds = (2 if race else 4) if quick else (8 if race else 20)
+        stjobs.append((gmp, race, tag, comp, alloc, ex.submit(stress, ctx, binr if race else binp, tag, ctx.seed + gmp, rounds, env, comp, alloc)))
     # refusal inside commitTxs while script workers run (child processes: a crash of the child is the finding),
     # and the block writer next to BlockTrusted (outcome after a reopen)
     chjobs = []
@@ -497,16 +493,15 @@ def run(ctx):
     # ---- 4a. stress on a real chain
     refs = set()
     deliveries = 0
-    for gmp, race, tag, fut in stjobs:
+    for gmp, race, tag, comp, alloc, fut in stjobs:
         summ, fails, crash = fut.result()
-        comp = tag.startswith("sc")
         if crash:
             ctx.violation("%s:crash:stress%s:%s" % (ctx.pid, "-compressed" if comp else "", crash["func"]),
-                          {"cmd": "utxosave stress" + (" -compress" if comp else ""), "seed": ctx.seed + gmp, "gomaxprocs": gmp, "race": race, "crash": crash},
+                          {"cmd": "utxosave stress -alloc %s%s" % (alloc, " -compress" if comp else ""), "seed": ctx.seed + gmp, "gomaxprocs": gmp, "race": race, "crash": crash},
                           "stress driver%s: block processing died in %s: %s" % (" (compressed UTXO records)" if comp else "", crash["where"], crash["what"]))
-        report_run(ctx, fails, "stress%s-gomaxprocs%d" % ("compressed" if comp else "", gmp), {"cmd": "utxosave stress" + (" -compress" if comp else ""), "seed": ctx.seed + gmp, "gomaxprocs": gmp, "race": race})
+        report_run(ctx, fails, "stress%s-gomaxprocs%d-alloc-%s" % ("compressed" if comp else "", gmp, alloc), {"cmd": "utxosave stress -alloc %s%s" % (alloc, " -compress" if comp else ""), "seed": ctx.seed + gmp, "gomaxprocs": gmp, "race": race})
         if race:
-            note_races(ctx, tag, {"cmd": "utxosave stress%s (race build)" % (" -compress" if comp else ""), "seed": ctx.seed + gmp, "gomaxprocs": gmp})
+            note_races(ctx, tag, {"cmd": "utxosave stress -alloc %s%s (race build)" % (alloc, " -compress" if comp else ""), "seed": ctx.seed + gmp, "gomaxprocs": gmp})
         if summ:
             refs.add(json.dumps(summ["ref"], sort_keys=True))
             deliveries += summ["deliveries"]
